@@ -14,7 +14,7 @@ import sys
 sys.unraisablehook = lambda *args: None   # silence GC-time clean-up of abandoned coroutines
 
 import usim
-from usim import Scope, until, time, Flag, Lock, instant, Concurrent, TaskCancelled, \
+from usim import eternity, Scope, until, time, Flag, Lock, instant, Concurrent, TaskCancelled, \
     TaskClosed, CancelTask, Queue, Channel, StreamClosed
 from usim._core.loop import Interrupt, Loop
 from usim._primitives.context import CancelScope, ScopeClosed
@@ -66,7 +66,7 @@ class World:
 
     def now(self):
         t = time.now
-        return int(t) if t == int(t) else t
+        return int(t) if t != float('inf') and t == int(t) else t
 
     def emit(self, e, a, **kw):
         if self.frozen:
@@ -130,6 +130,7 @@ class Puppet:
         # a task the model did not foresee (e.g. a spawn it expects to be refused) gets a visible default program
         self.ops = world.prog[a - 1] if a - 1 < len(world.prog) else [{'op': 'sleep', 'd': 1}]
         self.i = 0
+        self.scope_stack = []  # ids of the scope blocks this activity has open (innermost last)
         self.fin = 'none'     # clean-up behaviour when closed
         self.scope = 0        # scope this task was spawned into
 
@@ -192,7 +193,7 @@ class Puppet:
     async def op_sleep(self, op):
         async def f():
             await (time + op['d'])
-        await self.leaf(op, f, {'d': op['d']})
+        await self.leaf(op, f, {'d': op['d'], 'due': time.now + op['d']})
 
     async def op_fset(self, op):
         async def f():
@@ -228,9 +229,13 @@ class Puppet:
 
     def spawn(self, op):
         w = self.w
+        if op['s'] == -1:       # generated programs: "my innermost open scope"
+            op = dict(op, s=self.scope_stack[-1])
         scope = w.scopes[op['s']]
         k = w.nact + 1
         child = Puppet(w, k)
+        if 'prog' in op:        # generated programs carry the child's program inline
+            child.ops = op['prog']
         child.fin = op.get('fin', 'none')
         child.scope = op['s']
         coro = child.main()
@@ -238,6 +243,14 @@ class Puppet:
         if op.get('d'):
             kw['after'] = op['d']
         args = dict(s=op['s'], vol=op['vol'], d=op.get('d', 0), fin=op.get('fin', 'none'))
+        if 'at_abs' in op and op['at_abs'] >= time.now:
+            op = dict(op, at=op['at_abs'])
+        if 'at_rel' in op:      # generated programs: an absolute start date relative to now
+            op = dict(op, at=time.now + op['at_rel'])
+        if 'at' in op:
+            kw = {'at': op['at']}
+            args['at'] = op['at']
+        args['due'] = op['at'] if 'at' in op else time.now + op.get('d', 0)
         try:
             task = scope.do(coro, volatile=op['vol'], **kw)
         except (Exception, Concurrent) as err:
@@ -256,6 +269,55 @@ class Puppet:
                 usim.TaskState.CANCELLED: 'cancelled', usim.TaskState.FAILED: 'failed',
                 usim.TaskState.SUCCESS: 'success'}.get(st, str(st))
         self.emit('p', op='status', k=op['k'], v=name)
+
+    # ------------------------------------------------------------ conditions
+    def cond(self, c):
+        """build the real condition object for a model expression"""
+        k = c[0]
+        if k == 'flag':
+            return self.w.flags[c[1]]
+        if k == 'nflag':
+            return ~self.w.flags[c[1]]
+        if k == 'done':
+            return self.w.tasks[c[1]].done
+        if k == 'ndone':
+            return ~self.w.tasks[c[1]].done
+        if k == 'ge':
+            return time >= c[1]
+        if k == 'lt':
+            return time < c[1]
+        if k == 'eq':
+            return time == c[1]
+        if k == 'inst':
+            return instant
+        if k == 'etern':
+            return eternity
+        if k in ('all', 'any'):
+            parts = [self.cond(x) for x in c[1]]
+            res = parts[0]
+            for p in parts[1:]:
+                res = (res & p) if k == 'all' else (res | p)
+            return res
+        raise ValueError(c)
+
+    async def op_await_c(self, op):
+        async def f():
+            await self.cond(op['c'])
+        args = {'c': op['c']}
+        c, now = op['c'], time.now
+        if c[0] == 'ge':
+            args['due'] = max(now, c[1])
+        elif c[0] == 'eq':
+            args.update({'due': c[1]} if now <= c[1] else {'never': True})
+        elif c[0] == 'lt':
+            args.update({'due': now} if now < c[1] else {'never': True})
+        elif c[0] == 'etern':
+            args['never'] = True
+        await self.leaf(op, f, args, tag={'c': op['c']})
+
+    async def op_probe_c(self, op):
+        cond = self.cond(op['c'])
+        self.emit('p', op='probe_c', c=op['c'], v=bool(cond), nv=bool(~cond))
 
     # ------------------------------------------------------------ streams
     def new_item(self, stream):
@@ -368,20 +430,26 @@ class Puppet:
             scope = until(time + op['d'])
         elif kind == 'until_f':
             scope = until(w.flags[op['f']])
+        elif kind == 'until_c':
+            scope = until(self.cond(op['c']))
         else:
             raise ValueError(kind)
         s = w.nsc + 1
         w.nsc = s
         w.scopes[s] = scope
         w.scope_id[id(scope)] = s
-        args = {key: op[key] for key in ('kind', 'd', 'f', 'catch') if key in op}
+        args = {key: op[key] for key in ('kind', 'd', 'f', 'c', 'catch') if key in op}
         self.emit('b', op='open', s=s, **args)
         phase = 'enter'
         try:
             async with scope:
                 phase = 'body'
                 self.emit('r', op='open')
-                implicit = await self.block()
+                self.scope_stack.append(s)
+                try:
+                    implicit = await self.block()
+                finally:
+                    self.scope_stack.pop()
                 phase = 'leave'
                 self.emit('b', op='leave', implicit=implicit, blk='scope', id=s)
             if phase == 'leave':
